@@ -1310,6 +1310,9 @@ class _IterativeEvalTracker:
             self._ns.todo = set()
             self._ns.computed = set()
             self._ns.iteration_number = 0
+            # same defaults as __call__(), for threads which have yet to evaluate
+            self._ns.iterations = 100
+            self._ns.tolerance = 0.001
         return self._ns
 
     def __call__(self, iterations=100, tolerance=0.001):
